@@ -101,6 +101,9 @@ class _ArithmeticMixin:
     __rand__ = __and__
 
     def __xor__(self, other):
+        if not isinstance(other, _Base):
+            # *other* is used twice below; it may be a one-shot iterator.
+            other = self._set_type(other)
         return (self - other) | (other - self)
 
     __rxor__ = __xor__
